@@ -184,6 +184,7 @@ func resetCaches() {
 	initFuncs = nil
 	regCache = nil
 	factoryCache = nil
+	lockedHelperCache = map[*ssaFunc][]int{}
 	fieldOwnerCache = map[string]bool{}
 	quoAtoms = map[string]quoDef{}
 	inlineCache = map[inlineKey]inlineRes{}
